@@ -100,9 +100,12 @@ func renderAmount(r *RNG, val *big.Rat, cm c02Commodity, plain bool, bad [][]str
 			a.NoSpace = true
 		}
 		fd := fracD
-		if len(fd) == 3 {
+		zeroInt := strings.Trim(intD, "0") == ""
+		if len(fd) == 3 && !zeroInt {
 			fd += "0" // "3.375" would be ambiguous (one mark, three digits): write 3.3750
 		}
+		// "0.375" is not ambiguous (no group of thousands in front of the mark) and stays as it is,
+		// also behind a sign
 		a.Num = MNum{Int: intD, Frac: fd}
 		var nots []string
 		if fd == "" {
@@ -149,7 +152,7 @@ func renderAmount(r *RNG, val *big.Rat, cm c02Commodity, plain bool, bad [][]str
 				continue
 			}
 		case "comma", "point":
-			if len(fd) == 3 {
+			if len(fd) == 3 && !zeroInt {
 				continue
 			}
 		}
